@@ -8,6 +8,7 @@ and a simulated kernel (fd table + POSIX record locks).  See DESIGN.md 5.1.
 from __future__ import annotations
 
 import errno
+import hashlib
 import os
 
 from sim import modinst
@@ -232,6 +233,7 @@ class Oracle:
         self.stats = {}
         self.outcomes = []
         self.interacted = False
+        self.states = set()
 
     def count(self, key, n=1):
         self.stats[key] = self.stats.get(key, 0) + n
@@ -314,6 +316,15 @@ class Oracle:
     def on_exit(self, vt, fr):
         if vt.killed:
             return None
+        if fr['req']['shared']:
+            # probe: a reader leaves while an upgrader of the same path waits
+            for o, frames in self.inflight.items():
+                if o is vt or not frames or o.state != BLOCKED or o.blocked_kind != 'cond':
+                    continue
+                f2 = frames[-1]
+                if f2['inode'] == fr['inode'] and f2['phase'] == 'acq' and not f2['req']['shared'] \
+                        and f2['held_before']:
+                    self.count('probe.reader_left_while_upgrader_waited')
         for idx in range(len(self.holds) - 1, -1, -1):
             h = self.holds[idx]
             if h[0] is vt and h[1] == fr['inode']:
@@ -373,7 +384,17 @@ class Oracle:
                                f'{"closed" if f is None else "another file"}')
                 return
 
+    def abstract_state(self):
+        """Lock-table state: who holds what in the reference model and in the kernel, and
+        what the parked vthreads wait for (thread identities abstracted to their process)."""
+        holds = tuple(sorted((os.path.basename(i), vt.pid, m) for (vt, i, m, _f) in self.holds))
+        kern = tuple(sorted((os.path.basename(i), p, m) for i, held in self.os.locks.items()
+                            for p, m in held.items()))
+        parked = tuple(sorted((t.pid, t.blocked_kind) for t in self.k.threads if t.state == BLOCKED))
+        return int(hashlib.blake2b(repr((holds, kern, parked)).encode(), digest_size=6).hexdigest(), 16)
+
     def on_step(self):
+        self.states.add(self.abstract_state())
         self.check_kernel()
         for vt, frames in self.inflight.items():
             if not frames:
@@ -648,6 +669,7 @@ def run_one(cfg, tape: Tape, want_trace=False):
         'nontrivial': bool(oracle.interacted or k.switches > nthreads),
         'policy': policy,
         'tape': list(tape.out),
+        'states': list(oracle.states),
     }
     if want_trace:
         res['program'] = fmt_program(prog)
